@@ -585,16 +585,23 @@ func decodeArray(raw []byte, elemOid int) []interface{} {
 	}
 
 	elemLen, fixed := fixedLengths[elemOid]
-	return parseArrayElements(raw, int(dataStart), int(total), elemOid, elemLen, fixed, nullBitmap)
+	elemAlign := typeAlign(elemOid, -1)
+	if fixed {
+		elemAlign = typeAlign(elemOid, elemLen)
+	}
+	return parseArrayElements(raw, int(dataStart), int(total), elemOid, elemLen, elemAlign, fixed, nullBitmap)
 }
 
-func parseArrayElements(raw []byte, off, count, elemOid, elemLen int, fixed bool, nulls []byte) []interface{} {
+func parseArrayElements(raw []byte, off, count, elemOid, elemLen, elemAlign int, fixed bool, nulls []byte) []interface{} {
 	elems := make([]interface{}, 0, count)
 	for i := 0; i < count; i++ {
 		if nulls != nil && nulls[i/8]&(1<<(i%8)) == 0 {
 			elems = append(elems, nil)
 			continue
 		}
+		// every stored element, fixed or varlena, starts at a multiple of its type's alignment counted from
+		// the start of the varlena, which is 4 bytes before raw
+		off = align(off+4, elemAlign) - 4
 		if fixed {
 			if off+elemLen > len(raw) {
 				break
@@ -602,9 +609,6 @@ func parseArrayElements(raw []byte, off, count, elemOid, elemLen int, fixed bool
 			elems = append(elems, DecodeType(raw[off:off+elemLen], elemOid))
 			off += elemLen
 		} else {
-			if i > 0 {
-				off = align(off, 4)
-			}
 			if off >= len(raw) {
 				break
 			}
